@@ -1,4 +1,5 @@
 import Splipy.Lemmas.TensorEvalDefault
+import Splipy.Lemmas.TensorEvalDefault2
 import Splipy.Lemmas.TensorEvalPeriodic
 
 /-!
@@ -19,8 +20,11 @@ Vocabulary (defined in `Splipy/Lemmas/TensorEvalObj.lean`, `…/EvalRow.lean`):
   `Σ_{i ≡ j mod n} B … i (b.wrap u)` for a periodic one (`C02_specRow_periodic`).
 * `b.Admissible tol u` — `u` is exact (`b.ExactAt tol u`: a knot, or at least `tol` away from every
   knot), lies in `[start, stop]` if `b` is non-periodic, and `b.wrap u` is exact if `b` is periodic.
-* `o.OutOfDomain tol params` — some non-periodic direction has a snapped parameter outside
+* `o.OutOfDomain tol params` — some non-periodic direction has an EMPTY parameter list (the real
+  code takes `min(p)`, which raises `ValueError` on an empty sequence) or a snapped parameter outside
   `[start, stop]` (spelled out in `C02_outside_raises`).
+* `b.ShiftOK tol us m` / `b.SeamContinuous tol` — hypotheses of the period-shift theorems, see
+  `C02_periodic_wraps_curve`.
 -/
 
 open Splipy Splipy.Tensor
@@ -173,13 +177,15 @@ theorem C02_pointwise_is_diagonal_obj_volume {o : Obj K} {b1 b2 b3 : Basis K}
 /-! ## 6. `C02_outside_raises` — error behaviour (any parametric dimension) -/
 
 /-- `evaluate` raises `ValueError` exactly when (`tensor=False` and
-`len({len(p) for p in params}) != 1`) or some non-periodic direction has a snapped parameter
-outside `[start, end]`.  Periodic directions never raise. -/
+`len({len(p) for p in params}) != 1`) or some non-periodic direction has an EMPTY parameter list
+(`min()` of an empty sequence) or a snapped parameter outside `[start, end]`.  Periodic directions
+never raise (they accept the empty list too: the result then has a zero-length axis). -/
 theorem C02_outside_raises (o : Obj K) (tol : K) (params : List (List K)) (tensor : Bool) :
     o.evaluate tol params tensor = .error .value ↔
       (tensor = false ∧ (params.map List.length).eraseDups.length ≠ 1) ∨
       (∃ bp ∈ List.zip o.bases.toList params, bp.1.periodic < 0 ∧
-        ∃ t ∈ bp.2, snap bp.1 tol t < bp.1.start ∨ bp.1.stop < snap bp.1 tol t) := by
+        (bp.2 = [] ∨
+          ∃ t ∈ bp.2, snap bp.1 tol t < bp.1.start ∨ bp.1.stop < snap bp.1 tol t)) := by
   constructor
   · intro h
     by_contra hc
@@ -236,6 +242,23 @@ theorem C02_periodic_accepts_any_real (o : Obj K) (tol : K) (params : List (List
   rintro ⟨bp, hbp, h, -⟩
   have := hper bp.1 (List.of_mem_zip hbp).1
   omega
+
+/-- … also in the pointwise form, provided the lists have one common length. -/
+theorem C02_periodic_accepts_any_real_pointwise (o : Obj K) (tol : K) (params : List (List K))
+    (hper : ∀ b ∈ o.bases.toList, 0 ≤ b.periodic)
+    (hlen : (params.map List.length).eraseDups.length = 1) :
+    ∃ res, o.evaluate tol params false = .ok res := by
+  refine ⟨_, o.evaluate_ok tol params false (fun h => h.2 hlen) ?_⟩
+  rintro ⟨bp, hbp, h, -⟩
+  have := hper bp.1 (List.of_mem_zip hbp).1
+  omega
+
+/-- An empty parameter list in a non-periodic direction raises `ValueError` (every calling form). -/
+theorem C02_empty_nonperiodic_raises (o : Obj K) (tol : K) (params : List (List K))
+    (tensor : Bool) {b : Basis K} (hb : (b, []) ∈ List.zip o.bases.toList params)
+    (hper : b.periodic < 0) :
+    o.evaluate tol params tensor = .error .value :=
+  o.evaluate_error_dom tol params tensor ⟨(b, []), hb, hper, Or.inl rfl⟩
 
 /-! ## 2'. `C02_tensor_eval` at object level: result entries in terms of the code's basis rows
 
@@ -361,7 +384,8 @@ theorem C02_row_is_spec {b : Basis K} (hv : b.Valid) {tol u : K} (htol : 0 < tol
 theorem C02_nonrational_is_spline_sum_curve {o : Obj K} {b1 : Basis K} (hb : o.bases = #[b1])
     (hv1 : b1.Valid) {nc : ℕ} (hs : o.cps.shape = [b1.numFunctions, nc])
     (hr : o.rational = false) {tol : K} (htol : 0 < tol) {us : List K}
-    (hus : ∀ u ∈ us, b1.Admissible tol u) :
+    (hus : ∀ u ∈ us, b1.Admissible tol u)
+    (hne1 : b1.periodic < 0 → us ≠ []) :
     ∃ res, o.evaluate tol [us] true = .ok res ∧
       res.shape = [us.length, nc] ∧ res.data.size = us.length * nc ∧
       ∀ i1 c, i1 < us.length → c < nc →
@@ -376,7 +400,9 @@ theorem C02_nonrational_is_spline_sum_surface {o : Obj K} {b1 b2 : Basis K}
     (hb : o.bases = #[b1, b2]) (hv1 : b1.Valid) (hv2 : b2.Valid) {nc : ℕ}
     (hs : o.cps.shape = [b1.numFunctions, b2.numFunctions, nc]) (hr : o.rational = false)
     {tol : K} (htol : 0 < tol) {us vs : List K}
-    (hus : ∀ u ∈ us, b1.Admissible tol u) (hvs : ∀ v ∈ vs, b2.Admissible tol v) :
+    (hus : ∀ u ∈ us, b1.Admissible tol u) (hvs : ∀ v ∈ vs, b2.Admissible tol v)
+    (hne1 : b1.periodic < 0 → us ≠ [])
+    (hne2 : b2.periodic < 0 → vs ≠ []) :
     ∃ res, o.evaluate tol [us, vs] true = .ok res ∧
       res.shape = [us.length, vs.length, nc] ∧ res.data.size = us.length * vs.length * nc ∧
       ∀ i1 i2 c, i1 < us.length → i2 < vs.length → c < nc →
@@ -392,7 +418,10 @@ theorem C02_nonrational_is_spline_sum_volume {o : Obj K} {b1 b2 b3 : Basis K}
     (hs : o.cps.shape = [b1.numFunctions, b2.numFunctions, b3.numFunctions, nc])
     (hr : o.rational = false) {tol : K} (htol : 0 < tol) {us vs ws : List K}
     (hus : ∀ u ∈ us, b1.Admissible tol u) (hvs : ∀ v ∈ vs, b2.Admissible tol v)
-    (hws : ∀ w ∈ ws, b3.Admissible tol w) :
+    (hws : ∀ w ∈ ws, b3.Admissible tol w)
+    (hne1 : b1.periodic < 0 → us ≠ [])
+    (hne2 : b2.periodic < 0 → vs ≠ [])
+    (hne3 : b3.periodic < 0 → ws ≠ []) :
     ∃ res, o.evaluate tol [us, vs, ws] true = .ok res ∧
       res.shape = [us.length, vs.length, ws.length, nc] ∧
       res.data.size = us.length * vs.length * ws.length * nc ∧
@@ -411,7 +440,7 @@ theorem C02_nonrational_is_spline_sum_curve_open {o : Obj K} {b1 : Basis K}
     (hb : o.bases = #[b1]) (hv1 : b1.Valid) (hp1 : b1.periodic = -1) {nc : ℕ}
     (hs : o.cps.shape = [b1.numFunctions, nc]) (hr : o.rational = false) {tol : K}
     (htol : 0 < tol) {us : List K}
-    (hus : ∀ u ∈ us, b1.ExactAt tol u ∧ b1.start ≤ u ∧ u ≤ b1.stop) :
+    (hus : ∀ u ∈ us, b1.ExactAt tol u ∧ b1.start ≤ u ∧ u ≤ b1.stop) (hne : us ≠ []) :
     ∃ res, o.evaluate tol [us] true = .ok res ∧
       res.shape = [us.length, nc] ∧ res.data.size = us.length * nc ∧
       ∀ i1 c, i1 < us.length → c < nc →
@@ -421,7 +450,7 @@ theorem C02_nonrational_is_spline_sum_curve_open {o : Obj K} {b1 : Basis K}
                 * o.cps.get (j1 * nc + c) := by
   obtain ⟨res, h1, h2, h3, h4⟩ := Obj.evaluate1_spec_nonrational hb hv1 hs hr htol
     (fun u hu => ⟨(hus u hu).1, fun _ => (hus u hu).2,
-      fun h => by rw [hp1] at h; exact absurd h (by decide)⟩)
+      fun h => by rw [hp1] at h; exact absurd h (by decide)⟩) (fun _ => hne)
   refine ⟨res, h1, h2, h3, fun i1 c hi hc => ?_⟩
   rw [h4 i1 c hi hc]
   exact Finset.sum_congr rfl (fun j _ => by rw [Basis.specRow_nonperiodic hp1])
@@ -433,7 +462,8 @@ theorem C02_nonrational_is_spline_sum_surface_open {o : Obj K} {b1 b2 : Basis K}
     (hs : o.cps.shape = [b1.numFunctions, b2.numFunctions, nc]) (hr : o.rational = false)
     {tol : K} (htol : 0 < tol) {us vs : List K}
     (hus : ∀ u ∈ us, b1.ExactAt tol u ∧ b1.start ≤ u ∧ u ≤ b1.stop)
-    (hvs : ∀ v ∈ vs, b2.ExactAt tol v ∧ b2.start ≤ v ∧ v ≤ b2.stop) :
+    (hvs : ∀ v ∈ vs, b2.ExactAt tol v ∧ b2.start ≤ v ∧ v ≤ b2.stop)
+    (hne1 : us ≠ []) (hne2 : vs ≠ []) :
     ∃ res, o.evaluate tol [us, vs] true = .ok res ∧
       res.shape = [us.length, vs.length, nc] ∧ res.data.size = us.length * vs.length * nc ∧
       ∀ i1 i2 c, i1 < us.length → i2 < vs.length → c < nc →
@@ -446,7 +476,7 @@ theorem C02_nonrational_is_spline_sum_surface_open {o : Obj K} {b1 b2 : Basis K}
     (fun u hu => ⟨(hus u hu).1, fun _ => (hus u hu).2,
       fun h => by rw [hp1] at h; exact absurd h (by decide)⟩)
     (fun v hv => ⟨(hvs v hv).1, fun _ => (hvs v hv).2,
-      fun h => by rw [hp2] at h; exact absurd h (by decide)⟩)
+      fun h => by rw [hp2] at h; exact absurd h (by decide)⟩) (fun _ => hne1) (fun _ => hne2)
   refine ⟨res, h1, h2, h3, fun i1 i2 c hi1 hi2 hc => ?_⟩
   rw [h4 i1 i2 c hi1 hi2 hc]
   exact Finset.sum_congr rfl (fun j1 _ => Finset.sum_congr rfl (fun j2 _ => by
@@ -493,7 +523,8 @@ theorem C02_rational_curve {o : Obj K} {b1 : Basis K} (hb : o.bases = #[b1])
     (hv1 : b1.Valid) {dim : ℕ} (hs : o.cps.shape = [b1.numFunctions, dim + 1])
     (hr : o.rational = true)
     (hw : ∀ j1, j1 < b1.numFunctions → 0 < o.cps.get (j1 * (dim + 1) + dim))
-    {tol : K} (htol : 0 < tol) {us : List K} (hus : ∀ u ∈ us, b1.Admissible tol u) :
+    {tol : K} (htol : 0 < tol) {us : List K} (hus : ∀ u ∈ us, b1.Admissible tol u)
+    (hne1 : b1.periodic < 0 → us ≠ []) :
     ∃ res, o.evaluate tol [us] true = .ok res ∧
       res.shape = [us.length, dim] ∧ res.data.size = us.length * dim ∧
       ∀ i1, i1 < us.length →
@@ -514,7 +545,9 @@ theorem C02_rational_surface {o : Obj K} {b1 b2 : Basis K} (hb : o.bases = #[b1,
     (hw : ∀ j1 j2, j1 < b1.numFunctions → j2 < b2.numFunctions →
       0 < o.cps.get ((j1 * b2.numFunctions + j2) * (dim + 1) + dim))
     {tol : K} (htol : 0 < tol) {us vs : List K}
-    (hus : ∀ u ∈ us, b1.Admissible tol u) (hvs : ∀ v ∈ vs, b2.Admissible tol v) :
+    (hus : ∀ u ∈ us, b1.Admissible tol u) (hvs : ∀ v ∈ vs, b2.Admissible tol v)
+    (hne1 : b1.periodic < 0 → us ≠ [])
+    (hne2 : b2.periodic < 0 → vs ≠ []) :
     ∃ res, o.evaluate tol [us, vs] true = .ok res ∧
       res.shape = [us.length, vs.length, dim] ∧ res.data.size = us.length * vs.length * dim ∧
       ∀ i1 i2, i1 < us.length → i2 < vs.length →
@@ -540,7 +573,10 @@ theorem C02_rational_volume {o : Obj K} {b1 b2 b3 : Basis K}
       0 < o.cps.get (((j1 * b2.numFunctions + j2) * b3.numFunctions + j3) * (dim + 1) + dim))
     {tol : K} (htol : 0 < tol) {us vs ws : List K}
     (hus : ∀ u ∈ us, b1.Admissible tol u) (hvs : ∀ v ∈ vs, b2.Admissible tol v)
-    (hws : ∀ w ∈ ws, b3.Admissible tol w) :
+    (hws : ∀ w ∈ ws, b3.Admissible tol w)
+    (hne1 : b1.periodic < 0 → us ≠ [])
+    (hne2 : b2.periodic < 0 → vs ≠ [])
+    (hne3 : b3.periodic < 0 → ws ≠ []) :
     ∃ res, o.evaluate tol [us, vs, ws] true = .ok res ∧
       res.shape = [us.length, vs.length, ws.length, dim] ∧
       res.data.size = us.length * vs.length * ws.length * dim ∧
@@ -576,9 +612,22 @@ theorem C02_specRow_add_period {b : Basis K} (hv : b.Valid) (hper : 0 ≤ b.peri
     b.specRow (u + m * (b.stop - b.start)) j = b.specRow u j :=
   Basis.specRow_add_period hv hper u m h1 h2 j
 
+/-- Periodic basis whose seam is continuous (`b.SeamContinuous tol`: the seam knot has multiplicity
+`< order`, and `start`, `stop` are exact): the code's basis row is invariant under shifts by whole
+periods at EVERY exact parameter, the domain end `stop` included (uses the C08 seam lemma
+`evaluate_value_shift`). -/
+theorem C02_rowVal_add_period {b : Basis K} (hv : b.Valid) (hper : 0 ≤ b.periodic) {tol : K}
+    (htol : 0 < tol) (hseam : b.SeamContinuous tol) {u : K} (m : ℤ) (hex : b.ExactAt tol u)
+    (hex' : b.ExactAt tol (u + m * (b.stop - b.start))) (j : ℕ) :
+    b.rowVal tol (u + m * (b.stop - b.start)) j = b.rowVal tol u j :=
+  Basis.rowVal_add_period hv hper htol hseam m hex hex' j
+
 /-- Curve: shifting every parameter `u` by `m u` whole periods does not change the result of
-`evaluate`, in either calling form (`b.ShiftOK`: nothing is shifted, or the direction is periodic
-and all original and shifted parameters are exact and differ from the domain end). -/
+`evaluate`, in either calling form.  `b.ShiftOK tol us m` is: nothing is shifted (`∀ u ∈ us, m u = 0`),
+or the direction is periodic, all original and shifted parameters are exact, and EITHER none of them
+is the domain end `stop` OR the seam is continuous (`b.SeamContinuous tol`, which is necessary at
+`stop`: with a seam knot of full multiplicity the row at `stop` is the left limit and differs from
+the row at `start = stop - T`). -/
 theorem C02_periodic_wraps_curve {o : Obj K} {b1 : Basis K} (hb : o.bases = #[b1])
     (hv1 : b1.Valid) {tol : K} (htol : 0 < tol) (us : List K)
     (m1 : K → ℤ) (h1 : b1.ShiftOK tol us m1) (tensor : Bool) :
@@ -619,7 +668,7 @@ theorem C02_greville {b : Basis K} (hp : 2 ≤ b.order) :
 control points are `(ξ_j, 0)`, and evaluation at exact in-domain parameters returns `(u, 0)`. -/
 theorem C02_identity_map_curve (b : Basis K) (hv : b.Valid) (hper : b.periodic = -1)
     (hp : 2 ≤ b.order) {tol : K} (htol : 0 < tol) {us : List K}
-    (hus : ∀ u ∈ us, b.ExactAt tol u ∧ b.start ≤ u ∧ u ≤ b.stop) :
+    (hus : ∀ u ∈ us, b.ExactAt tol u ∧ b.start ≤ u ∧ u ≤ b.stop) (hne : us ≠ []) :
     ∃ o res, Obj.default #[b] false = .ok o ∧
       o.bases = #[b] ∧ o.rational = false ∧ o.cps.shape = [b.numFunctions, 2] ∧
       (∀ j, j < b.numFunctions →
@@ -627,12 +676,12 @@ theorem C02_identity_map_curve (b : Basis K) (hv : b.Valid) (hper : b.periodic =
         o.cps.get (j * 2 + 1) = 0) ∧
       o.evaluate tol [us] true = .ok res ∧ res.shape = [us.length, 2] ∧
       ∀ i, i < us.length → res.get (i * 2 + 0) = us.getD i 0 ∧ res.get (i * 2 + 1) = 0 :=
-  Obj.default_curve_identity b hv hper hp htol hus
+  Obj.default_curve_identity b hv hper hp htol hus hne
 
 /-- Default rational curve: control points `(ξ_j, 0, 1)`; evaluation returns `(u, 0)`. -/
 theorem C02_identity_map_curve_rational (b : Basis K) (hv : b.Valid) (hper : b.periodic = -1)
     (hp : 2 ≤ b.order) {tol : K} (htol : 0 < tol) {us : List K}
-    (hus : ∀ u ∈ us, b.ExactAt tol u ∧ b.start ≤ u ∧ u ≤ b.stop) :
+    (hus : ∀ u ∈ us, b.ExactAt tol u ∧ b.start ≤ u ∧ u ≤ b.stop) (hne : us ≠ []) :
     ∃ o res, Obj.default #[b] true = .ok o ∧
       o.bases = #[b] ∧ o.rational = true ∧ o.cps.shape = [b.numFunctions, 3] ∧
       (∀ j, j < b.numFunctions →
@@ -640,7 +689,7 @@ theorem C02_identity_map_curve_rational (b : Basis K) (hv : b.Valid) (hper : b.p
         o.cps.get (j * 3 + 1) = 0 ∧ o.cps.get (j * 3 + 2) = 1) ∧
       o.evaluate tol [us] true = .ok res ∧ res.shape = [us.length, 2] ∧
       ∀ i, i < us.length → res.get (i * 2 + 0) = us.getD i 0 ∧ res.get (i * 2 + 1) = 0 :=
-  Obj.default_curve_identity_rational b hv hper hp htol hus
+  Obj.default_curve_identity_rational b hv hper hp htol hus hne
 
 /-- Default surface of two valid non-periodic bases of order ≥ 2: control points
 `(ξ¹_{j₁}, ξ²_{j₂})`; evaluation at exact in-domain parameters returns `(u, v)`. -/
@@ -648,7 +697,8 @@ theorem C02_identity_map_surface (b1 b2 : Basis K) (hv1 : b1.Valid) (hv2 : b2.Va
     (hper1 : b1.periodic = -1) (hper2 : b2.periodic = -1) (hp1 : 2 ≤ b1.order)
     (hp2 : 2 ≤ b2.order) {tol : K} (htol : 0 < tol) {us vs : List K}
     (hus : ∀ u ∈ us, b1.ExactAt tol u ∧ b1.start ≤ u ∧ u ≤ b1.stop)
-    (hvs : ∀ v ∈ vs, b2.ExactAt tol v ∧ b2.start ≤ v ∧ v ≤ b2.stop) :
+    (hvs : ∀ v ∈ vs, b2.ExactAt tol v ∧ b2.start ≤ v ∧ v ≤ b2.stop)
+    (hne1 : us ≠ []) (hne2 : vs ≠ []) :
     ∃ o res, Obj.default #[b1, b2] false = .ok o ∧
       o.bases = #[b1, b2] ∧ o.rational = false ∧
       o.cps.shape = [b1.numFunctions, b2.numFunctions, 2] ∧
@@ -661,7 +711,88 @@ theorem C02_identity_map_surface (b1 b2 : Basis K) (hv1 : b1.Valid) (hv2 : b2.Va
       ∀ i1 i2, i1 < us.length → i2 < vs.length →
         res.get ((i1 * vs.length + i2) * 2 + 0) = us.getD i1 0 ∧
         res.get ((i1 * vs.length + i2) * 2 + 1) = vs.getD i2 0 :=
-  Obj.default_surface_identity b1 b2 hv1 hv2 hper1 hper2 hp1 hp2 htol hus hvs
+  Obj.default_surface_identity b1 b2 hv1 hv2 hper1 hper2 hp1 hp2 htol hus hvs hne1 hne2
+
+/-- Default rational surface: control points `(ξ¹_{j₁}, ξ²_{j₂}, 1)`; evaluation returns `(u, v)`. -/
+theorem C02_identity_map_surface_rational (b1 b2 : Basis K) (hv1 : b1.Valid) (hv2 : b2.Valid)
+    (hper1 : b1.periodic = -1) (hper2 : b2.periodic = -1) (hp1 : 2 ≤ b1.order)
+    (hp2 : 2 ≤ b2.order) {tol : K} (htol : 0 < tol) {us vs : List K}
+    (hus : ∀ u ∈ us, b1.ExactAt tol u ∧ b1.start ≤ u ∧ u ≤ b1.stop)
+    (hvs : ∀ v ∈ vs, b2.ExactAt tol v ∧ b2.start ≤ v ∧ v ≤ b2.stop)
+    (hne1 : us ≠ []) (hne2 : vs ≠ []) :
+    ∃ o res, Obj.default #[b1, b2] true = .ok o ∧
+      o.bases = #[b1, b2] ∧ o.rational = true ∧
+      o.cps.shape = [b1.numFunctions, b2.numFunctions, 3] ∧
+      (∀ j1 j2, j1 < b1.numFunctions → j2 < b2.numFunctions →
+        o.cps.get ((j1 * b2.numFunctions + j2) * 3 + 0)
+          = grevilleAbscissa b1.kn (b1.order - 1) j1 ∧
+        o.cps.get ((j1 * b2.numFunctions + j2) * 3 + 1)
+          = grevilleAbscissa b2.kn (b2.order - 1) j2 ∧
+        o.cps.get ((j1 * b2.numFunctions + j2) * 3 + 2) = 1) ∧
+      o.evaluate tol [us, vs] true = .ok res ∧ res.shape = [us.length, vs.length, 2] ∧
+      ∀ i1 i2, i1 < us.length → i2 < vs.length →
+        res.get ((i1 * vs.length + i2) * 2 + 0) = us.getD i1 0 ∧
+        res.get ((i1 * vs.length + i2) * 2 + 1) = vs.getD i2 0 :=
+  Obj.default_surface_identity_rational b1 b2 hv1 hv2 hper1 hper2 hp1 hp2 htol hus hvs hne1 hne2
+
+/-- Default volume of three valid non-periodic bases of order ≥ 2: control points
+`(ξ¹_{j₁}, ξ²_{j₂}, ξ³_{j₃})`; evaluation at exact in-domain parameters returns `(u, v, w)`. -/
+theorem C02_identity_map_volume (b1 b2 b3 : Basis K) (hv1 : b1.Valid) (hv2 : b2.Valid)
+    (hv3 : b3.Valid) (hper1 : b1.periodic = -1) (hper2 : b2.periodic = -1)
+    (hper3 : b3.periodic = -1) (hp1 : 2 ≤ b1.order) (hp2 : 2 ≤ b2.order) (hp3 : 2 ≤ b3.order)
+    {tol : K} (htol : 0 < tol) {us vs ws : List K}
+    (hus : ∀ u ∈ us, b1.ExactAt tol u ∧ b1.start ≤ u ∧ u ≤ b1.stop)
+    (hvs : ∀ v ∈ vs, b2.ExactAt tol v ∧ b2.start ≤ v ∧ v ≤ b2.stop)
+    (hws : ∀ w ∈ ws, b3.ExactAt tol w ∧ b3.start ≤ w ∧ w ≤ b3.stop)
+    (hne1 : us ≠ []) (hne2 : vs ≠ []) (hne3 : ws ≠ []) :
+    ∃ o res, Obj.default #[b1, b2, b3] false = .ok o ∧
+      o.bases = #[b1, b2, b3] ∧ o.rational = false ∧
+      o.cps.shape = [b1.numFunctions, b2.numFunctions, b3.numFunctions, 3] ∧
+      (∀ j1 j2 j3, j1 < b1.numFunctions → j2 < b2.numFunctions → j3 < b3.numFunctions →
+        o.cps.get (((j1 * b2.numFunctions + j2) * b3.numFunctions + j3) * 3 + 0)
+          = grevilleAbscissa b1.kn (b1.order - 1) j1 ∧
+        o.cps.get (((j1 * b2.numFunctions + j2) * b3.numFunctions + j3) * 3 + 1)
+          = grevilleAbscissa b2.kn (b2.order - 1) j2 ∧
+        o.cps.get (((j1 * b2.numFunctions + j2) * b3.numFunctions + j3) * 3 + 2)
+          = grevilleAbscissa b3.kn (b3.order - 1) j3) ∧
+      o.evaluate tol [us, vs, ws] true = .ok res ∧
+      res.shape = [us.length, vs.length, ws.length, 3] ∧
+      ∀ i1 i2 i3, i1 < us.length → i2 < vs.length → i3 < ws.length →
+        res.get (((i1 * vs.length + i2) * ws.length + i3) * 3 + 0) = us.getD i1 0 ∧
+        res.get (((i1 * vs.length + i2) * ws.length + i3) * 3 + 1) = vs.getD i2 0 ∧
+        res.get (((i1 * vs.length + i2) * ws.length + i3) * 3 + 2) = ws.getD i3 0 :=
+  Obj.default_volume_identity b1 b2 b3 hv1 hv2 hv3 hper1 hper2 hper3 hp1 hp2 hp3 htol hus hvs hws
+    hne1 hne2 hne3
+
+/-- Default rational volume: control points `(ξ¹_{j₁}, ξ²_{j₂}, ξ³_{j₃}, 1)`; evaluation returns
+`(u, v, w)`. -/
+theorem C02_identity_map_volume_rational (b1 b2 b3 : Basis K) (hv1 : b1.Valid) (hv2 : b2.Valid)
+    (hv3 : b3.Valid) (hper1 : b1.periodic = -1) (hper2 : b2.periodic = -1)
+    (hper3 : b3.periodic = -1) (hp1 : 2 ≤ b1.order) (hp2 : 2 ≤ b2.order) (hp3 : 2 ≤ b3.order)
+    {tol : K} (htol : 0 < tol) {us vs ws : List K}
+    (hus : ∀ u ∈ us, b1.ExactAt tol u ∧ b1.start ≤ u ∧ u ≤ b1.stop)
+    (hvs : ∀ v ∈ vs, b2.ExactAt tol v ∧ b2.start ≤ v ∧ v ≤ b2.stop)
+    (hws : ∀ w ∈ ws, b3.ExactAt tol w ∧ b3.start ≤ w ∧ w ≤ b3.stop)
+    (hne1 : us ≠ []) (hne2 : vs ≠ []) (hne3 : ws ≠ []) :
+    ∃ o res, Obj.default #[b1, b2, b3] true = .ok o ∧
+      o.bases = #[b1, b2, b3] ∧ o.rational = true ∧
+      o.cps.shape = [b1.numFunctions, b2.numFunctions, b3.numFunctions, 4] ∧
+      (∀ j1 j2 j3, j1 < b1.numFunctions → j2 < b2.numFunctions → j3 < b3.numFunctions →
+        o.cps.get (((j1 * b2.numFunctions + j2) * b3.numFunctions + j3) * 4 + 0)
+          = grevilleAbscissa b1.kn (b1.order - 1) j1 ∧
+        o.cps.get (((j1 * b2.numFunctions + j2) * b3.numFunctions + j3) * 4 + 1)
+          = grevilleAbscissa b2.kn (b2.order - 1) j2 ∧
+        o.cps.get (((j1 * b2.numFunctions + j2) * b3.numFunctions + j3) * 4 + 2)
+          = grevilleAbscissa b3.kn (b3.order - 1) j3 ∧
+        o.cps.get (((j1 * b2.numFunctions + j2) * b3.numFunctions + j3) * 4 + 3) = 1) ∧
+      o.evaluate tol [us, vs, ws] true = .ok res ∧
+      res.shape = [us.length, vs.length, ws.length, 3] ∧
+      ∀ i1 i2 i3, i1 < us.length → i2 < vs.length → i3 < ws.length →
+        res.get (((i1 * vs.length + i2) * ws.length + i3) * 3 + 0) = us.getD i1 0 ∧
+        res.get (((i1 * vs.length + i2) * ws.length + i3) * 3 + 1) = vs.getD i2 0 ∧
+        res.get (((i1 * vs.length + i2) * ws.length + i3) * 3 + 2) = ws.getD i3 0 :=
+  Obj.default_volume_identity_rational b1 b2 b3 hv1 hv2 hv3 hper1 hper2 hper3 hp1 hp2 hp3 htol
+    hus hvs hws hne1 hne2 hne3
 
 omit [LinearOrder K] [IsStrictOrderedRing K] [FloorRing K] in
 /-- Order-1 bases have no Greville points: the constructor without control points raises
@@ -698,7 +829,8 @@ theorem C02_bounding_box_spec (o : Obj K) {c pI : ℕ} (hc : c < o.dimension)
 theorem C02_bounding_box_curve {o : Obj K} {b1 : Basis K} (hb : o.bases = #[b1])
     (hv1 : b1.Valid) {nc : ℕ} (hs : o.cps.shape = [b1.numFunctions, nc])
     (hr : o.rational = false) {tol : K} (htol : 0 < tol) {us : List K}
-    (hus : ∀ u ∈ us, b1.Admissible tol u) :
+    (hus : ∀ u ∈ us, b1.Admissible tol u)
+    (hne1 : b1.periodic < 0 → us ≠ []) :
     ∃ res, o.evaluate tol [us] true = .ok res ∧
       ∀ i1 c, i1 < us.length → c < nc →
         ((o.boundingBox).getD c (0, 0)).1 ≤ res.get (i1 * nc + c) ∧
@@ -710,7 +842,9 @@ theorem C02_bounding_box_surface {o : Obj K} {b1 b2 : Basis K} (hb : o.bases = #
     (hv1 : b1.Valid) (hv2 : b2.Valid) {nc : ℕ}
     (hs : o.cps.shape = [b1.numFunctions, b2.numFunctions, nc]) (hr : o.rational = false)
     {tol : K} (htol : 0 < tol) {us vs : List K}
-    (hus : ∀ u ∈ us, b1.Admissible tol u) (hvs : ∀ v ∈ vs, b2.Admissible tol v) :
+    (hus : ∀ u ∈ us, b1.Admissible tol u) (hvs : ∀ v ∈ vs, b2.Admissible tol v)
+    (hne1 : b1.periodic < 0 → us ≠ [])
+    (hne2 : b2.periodic < 0 → vs ≠ []) :
     ∃ res, o.evaluate tol [us, vs] true = .ok res ∧
       ∀ i1 i2 c, i1 < us.length → i2 < vs.length → c < nc →
         ((o.boundingBox).getD c (0, 0)).1 ≤ res.get ((i1 * vs.length + i2) * nc + c) ∧
@@ -723,7 +857,10 @@ theorem C02_bounding_box_volume {o : Obj K} {b1 b2 b3 : Basis K}
     (hs : o.cps.shape = [b1.numFunctions, b2.numFunctions, b3.numFunctions, nc])
     (hr : o.rational = false) {tol : K} (htol : 0 < tol) {us vs ws : List K}
     (hus : ∀ u ∈ us, b1.Admissible tol u) (hvs : ∀ v ∈ vs, b2.Admissible tol v)
-    (hws : ∀ w ∈ ws, b3.Admissible tol w) :
+    (hws : ∀ w ∈ ws, b3.Admissible tol w)
+    (hne1 : b1.periodic < 0 → us ≠ [])
+    (hne2 : b2.periodic < 0 → vs ≠ [])
+    (hne3 : b3.periodic < 0 → ws ≠ []) :
     ∃ res, o.evaluate tol [us, vs, ws] true = .ok res ∧
       ∀ i1 i2 i3 c, i1 < us.length → i2 < vs.length → i3 < ws.length → c < nc →
         ((o.boundingBox).getD c (0, 0)).1
@@ -731,6 +868,8 @@ theorem C02_bounding_box_volume {o : Obj K} {b1 b2 b3 : Basis K}
         res.get (((i1 * vs.length + i2) * ws.length + i3) * nc + c)
             ≤ ((o.boundingBox).getD c (0, 0)).2 :=
   Obj.evaluate3_in_bbox hb hv1 hv2 hv3 hs hr htol hus hvs hws
+
+
 
 /-! ## Non-vacuity: concrete objects over `ℚ` meeting the hypotheses -/
 
@@ -815,20 +954,91 @@ def C02_exVolRat : Obj ℚ :=
   ⟨#[C02_exLin, C02_exLin, C02_exLin],
     ⟨[2, 2, 2, 2], #[0,1, 1,1, 2,2, 3,1, 4,1, 5,3, 6,1, 7,1]⟩, true⟩
 
-/-- C02_tensor_eval_surface / C02_pointwise_is_diagonal_surface (array level). -/
-example := C02_tensor_eval_surface (K := ℚ) #[#[1, 2], #[3, 4]] #[#[1, 0]] ⟨[2, 1, 1], #[5, 6]⟩ rfl
+/-- Periodic × open surface and open × periodic × open volume (one component). -/
+def C02_exSurfPer : Obj ℚ :=
+  ⟨#[C01_exPer, C02_exLin], ⟨[4, 2, 1], #[0, 1, 2, 3, 4, 5, 6, 7]⟩, false⟩
+
+def C02_exVolPer : Obj ℚ :=
+  ⟨#[C02_exLin, C01_exPer, C02_exLin],
+    ⟨[2, 4, 2, 1], #[0, 1, 2, 3, 4, 5, 6, 7, 8, 9, 10, 11, 12, 13, 14, 15]⟩, false⟩
+
+theorem C02_exLin_separated : C02_exLin.Separated (1/1000) := by
+  intro i j hi hj
+  have hi' : i < 4 := hi
+  have hj' : j < 4 := hj
+  interval_cases i <;> interval_cases j <;>
+    norm_num [Basis.kn, C02_exLin, abs_of_nonneg, abs_of_neg]
+
+theorem C02_exPer_exact_three : C01_exPer.ExactAt (1/1000) 3 := by
+  intro i hi
+  have hi' : i < 8 := hi
+  interval_cases i <;> norm_num [Basis.kn, C01_exPer, abs_of_nonneg, abs_of_neg]
+
+theorem C02_exPer_exact_six : C01_exPer.ExactAt (1/1000) 6 := by
+  intro i hi
+  have hi' : i < 8 := hi
+  interval_cases i <;> norm_num [Basis.kn, C01_exPer, abs_of_nonneg, abs_of_neg]
+
+/-- The seam knot `0` of `C01_exPer` has multiplicity 2 < 3. -/
+theorem C02_exPer_seam : C01_exPer.SeamContinuous (1/1000) := by
+  refine ⟨?_, by rw [C01_exPer_start]; exact C01_exPer_exact_zero,
+    by rw [C01_exPer_stop]; exact C02_exPer_exact_three⟩
+  intro j hj h
+  have hj' : j + 2 < 8 := hj
+  have hj'' : j < 6 := by omega
+  rw [C01_exPer_start] at h ⊢
+  interval_cases j <;> simp [Basis.kn, C01_exPer] at h ⊢
+
+/-- Shape and data / exception of a result, for the kernel-evaluated examples. -/
+def C02_view (r : PyM (Tensor ℚ)) : Option (List ℕ × List ℚ) :=
+  match r with | .ok t => some (t.shape, t.data.toList) | .error _ => none
+
+def C02_err (r : PyM (Tensor ℚ)) : Option PyErr :=
+  match r with | .ok _ => none | .error e => some e
+
+/-! ### 1. index algebra -/
+
+example := (C02_build3_readback [2, 3] 0 2 (fun a r i => ((a + r + i : ℕ) : ℚ)) (a := 0) (r := 1)
+  (i := 2) (by decide) (by decide) (by decide) : _ = _)
+
+example := (C02_applyAxis (K := ℚ) #[#[1, 2], #[3, 4], #[5, 6]] ⟨[2, 2], #[1, 0, 0, 1]⟩ 0
+  (by decide) : _ ∧ _)
+
+/-! ### 2. / 5. array-level contraction -/
+
+example := (C02_tensor_eval_curve (K := ℚ) #[#[1, 2], #[3, 4]] ⟨[2, 1], #[5, 6]⟩ rfl : _ ∧ _)
+example := (C02_tensor_eval_surface (K := ℚ) #[#[1, 2], #[3, 4]] #[#[1, 0]] ⟨[2, 1, 1], #[5, 6]⟩
+  rfl : _ ∧ _)
+example := (C02_tensor_eval_volume (K := ℚ) #[#[1, 2]] #[#[1]] #[#[2], #[3]]
+  ⟨[2, 1, 1, 1], #[5, 6]⟩ rfl : _ ∧ _)
+
+example : (Obj.contractGrid [#[#[1, 2], #[3, 4]], #[#[1, 0]]]
+    (⟨[2, 1, 1], #[5, 6]⟩ : Tensor ℚ)).data = #[17, 39] := by decide +kernel
+
+example := (C02_pointwise_is_diagonal_curve (K := ℚ) #[#[1, 2], #[3, 4]] ⟨[2, 1], #[5, 6]⟩ 2 rfl
+  (i := 1) (c := 0) (by decide) (by decide) (by decide) : _ = _)
+
+example := (C02_pointwise_is_diagonal_surface (K := ℚ) #[#[1, 2], #[3, 4]] #[#[1], #[2]]
+  ⟨[2, 1, 1], #[5, 6]⟩ 2 rfl (i := 1) (c := 0) (by decide) (by decide) (by decide) (by decide)
+  : _ = _)
+
+example := (C02_pointwise_is_diagonal_volume (K := ℚ) #[#[1, 2], #[3, 4]] #[#[1], #[2]]
+  #[#[1], #[1]] ⟨[2, 1, 1, 1], #[5, 6]⟩ 2 rfl (i := 1) (c := 0) (by decide) (by decide)
+  (by decide) (by decide) (by decide) : _ = _)
+
+example := (C02_pointwise_eval_surface (K := ℚ) #[#[1, 2], #[3, 4]] #[#[1], #[2]]
+  ⟨[2, 1, 1], #[5, 6]⟩ 2 rfl : _ ∧ _)
 
 example : (Obj.contractPointwise [#[#[1, 2], #[3, 4]], #[#[1], #[2]]]
-      (⟨[2, 1, 1], #[5, 6]⟩ : Tensor ℚ) 2).get (1 * 1 + 0)
-    = (Obj.contractGrid [#[#[1, 2], #[3, 4]], #[#[1], #[2]]]
-      (⟨[2, 1, 1], #[5, 6]⟩ : Tensor ℚ)).get ((1 * 2 + 1) * 1 + 0) :=
-  C02_pointwise_is_diagonal_surface _ _ _ 2 rfl (by decide) (by decide) (by decide) (by decide)
+    (⟨[2, 1, 1], #[5, 6]⟩ : Tensor ℚ) 2).data = #[17, 78] := by decide +kernel
+
+/-! ### 6. error behaviour, including the empty-list forms (kernel-evaluated) -/
 
 /-- C02_outside_raises: the parameter `4` is outside `[0, 3]`. -/
 example : C02_exCurve.evaluate (1/1000) [[4]] true = .error .value := by
   rw [C02_outside_raises]
   right
-  refine ⟨(C01_exOpen, [4]), by simp [C02_exCurve], by decide, 4, by simp, Or.inr ?_⟩
+  refine ⟨(C01_exOpen, [4]), by simp [C02_exCurve], by decide, Or.inr ⟨4, by simp, Or.inr ?_⟩⟩
   rw [snap_of_exact _ (by norm_num) C01_exOpen_exact_four, C01_exOpen_stop]
   norm_num
 
@@ -838,37 +1048,193 @@ example : C02_exSurf.evaluate (1/1000) [[1/2], [1/2, 1]] false = .error .value :
   left
   exact ⟨rfl, by decide⟩
 
-/-- C02_nonrational_is_spline_sum_curve / _curve_open / C02_bounding_box_curve. -/
-example := C02_nonrational_is_spline_sum_curve (o := C02_exCurve) rfl C01_exOpen_valid
-  (nc := 2) rfl rfl (tol := 1/1000) (by norm_num) C02_exOpen_adm
+/-- C02_outside_raises / C02_empty_nonperiodic_raises: empty list in a non-periodic direction. -/
+example : C02_exCurve.evaluate (1/1000) [[]] true = .error .value :=
+  C02_empty_nonperiodic_raises C02_exCurve (1/1000) [[]] true (b := C01_exOpen)
+    (by simp [C02_exCurve]) (by decide)
 
-example := C02_nonrational_is_spline_sum_curve_open (o := C02_exCurve) rfl C01_exOpen_valid rfl
+example : C02_exSurfPer.evaluate (1/1000) [[1/2], []] true = .error .value :=
+  C02_empty_nonperiodic_raises C02_exSurfPer (1/1000) [[1/2], []] true (b := C02_exLin)
+    (by simp [C02_exSurfPer]) (by decide)
+
+/-- The empty-list table of the real code, evaluated by the kernel on the model.
+Non-periodic direction empty ⇒ `ValueError` (tensor and pointwise). -/
+example : C02_err (C02_exCurve.evaluate (1/1000) [[]] true) = some .value := by decide +kernel
+example : C02_err (C02_exCurve.evaluate (1/1000) [[]] false) = some .value := by decide +kernel
+example : C02_err (C02_exSurf.evaluate (1/1000) [[], [1/2]] true) = some .value := by
+  decide +kernel
+example : C02_err (C02_exSurf.evaluate (1/1000) [[1/2], []] true) = some .value := by
+  decide +kernel
+example : C02_err (C02_exSurf.evaluate (1/1000) [[], []] true) = some .value := by decide +kernel
+example : C02_err (C02_exSurf.evaluate (1/1000) [[], []] false) = some .value := by
+  decide +kernel
+example : C02_err (C02_exVol.evaluate (1/1000) [[1/2], [], [1/2]] true) = some .value := by
+  decide +kernel
+example : C02_err (C02_exVol.evaluate (1/1000) [[], [], []] false) = some .value := by
+  decide +kernel
+/-- Pointwise form with lists of different lengths (one of them empty) ⇒ `ValueError`. -/
+example : C02_err (C02_exSurfPer.evaluate (1/1000) [[], [1/2]] false) = some .value := by
+  decide +kernel
+/-- Periodic direction empty ⇒ success with a zero-length axis. -/
+example : C02_view (C02_exCurvePer.evaluate (1/1000) [[]] true) = some ([0, 2], []) := by
+  decide +kernel
+example : C02_view (C02_exCurvePer.evaluate (1/1000) [[]] false) = some ([0, 2], []) := by
+  decide +kernel
+example : C02_view (C02_exSurfPer.evaluate (1/1000) [[], [1/2]] true) = some ([0, 1, 1], []) := by
+  decide +kernel
+example : C02_view (C02_exVolPer.evaluate (1/1000) [[1/2, 1], [], [1/2]] true)
+    = some ([2, 0, 1, 1], []) := by decide +kernel
+/-- Mixed: periodic direction empty but the non-periodic direction empty too ⇒ `ValueError`. -/
+example : C02_err (C02_exSurfPer.evaluate (1/1000) [[], []] true) = some .value := by
+  decide +kernel
+example : C02_err (C02_exSurfPer.evaluate (1/1000) [[], []] false) = some .value := by
+  decide +kernel
+/-- Periodic direction empty, other direction outside its domain ⇒ `ValueError`. -/
+example : C02_err (C02_exSurfPer.evaluate (1/1000) [[], [4]] true) = some .value := by
+  decide +kernel
+
+/-- C02_ok_otherwise / C02_error_is_value / C02_length_test. -/
+example := C02_ok_otherwise C02_exCurve (1/1000) [[1/2, 3]] true (by simp)
+  (Obj.not_outOfDomain1 rfl C01_exOpen_valid (by norm_num) C02_exOpen_adm)
+
+example : PyErr.value = .value :=
+  (C02_error_is_value C02_exCurve (1/1000) [[]] true .value
+    (C02_empty_nonperiodic_raises C02_exCurve (1/1000) [[]] true (b := C01_exOpen)
+      (by simp [C02_exCurve]) (by decide))).symm
+
+example : (([[1, 2], [3, 4]] : List (List ℚ)).map List.length).eraseDups.length = 1 :=
+  (C02_length_test _).mpr ⟨by simp, by simp⟩
+
+/-- C02_periodic_accepts_any_real (+ pointwise form). -/
+example := (C02_periodic_accepts_any_real C02_exCurvePer (1/1000) [[-100, 7/2, 1000]]
+  (by intro b hb; simp [C02_exCurvePer] at hb; subst hb; decide) : ∃ _, _)
+
+example := (C02_periodic_accepts_any_real_pointwise C02_exCurvePer (1/1000) [[-100, 7/2, 1000]]
+  (by intro b hb; simp [C02_exCurvePer] at hb; subst hb; decide) (by decide) : ∃ _, _)
+
+example : C02_view (C02_exCurvePer.evaluate (1/1000) [[-100, 7/2, 1000]] false)
+    = some ([3, 2], [1/2, 1, 3/4, 1/8, 1, 1/2]) := by decide +kernel
+
+/-! ### 2'. object-level entries (rows of the code) -/
+
+example := (C02_tensor_eval_obj_curve (o := C02_exCurve) rfl (n1 := 6) (nc := 2) rfl rfl (1/1000)
+  [1/2, 3] (Obj.not_outOfDomain1 rfl C01_exOpen_valid (by norm_num) C02_exOpen_adm) : ∃ _, _)
+
+example := (C02_tensor_eval_obj_surface (o := C02_exSurf) rfl (n1 := 2) (n2 := 2) (nc := 3) rfl
+  rfl (1/1000) [1/2, 1] [1/2, 1]
+  (Obj.not_outOfDomain2 rfl C02_exLin_valid C02_exLin_valid (by norm_num) C02_exLin_adm
+    C02_exLin_adm) : ∃ _, _)
+
+example := (C02_tensor_eval_obj_volume (o := C02_exVol) rfl (n1 := 2) (n2 := 2) (n3 := 2)
+  (nc := 1) rfl rfl (1/1000) [1/2, 1] [1/2, 1] [1/2, 1]
+  (Obj.not_outOfDomain3 rfl C02_exLin_valid C02_exLin_valid C02_exLin_valid (by norm_num)
+    C02_exLin_adm C02_exLin_adm C02_exLin_adm) : ∃ _, _)
+
+example := (C02_rational_rows_curve (o := C02_exCurveRat) rfl (n1 := 6) (dim := 2) rfl rfl
+  (1/1000) [1/2, 3]
+  (Obj.not_outOfDomain1 rfl C01_exOpen_valid (by norm_num) C02_exOpen_adm) : ∃ _, _)
+
+example := (C02_rational_rows_surface (o := C02_exSurfRat) rfl (n1 := 2) (n2 := 2) (dim := 2) rfl
+  rfl (1/1000) [1/2, 1] [1/2, 1]
+  (Obj.not_outOfDomain2 rfl C02_exLin_valid C02_exLin_valid (by norm_num) C02_exLin_adm
+    C02_exLin_adm) : ∃ _, _)
+
+example := (C02_rational_rows_volume (o := C02_exVolRat) rfl (n1 := 2) (n2 := 2) (n3 := 2)
+  (dim := 1) rfl rfl (1/1000) [1/2, 1] [1/2, 1] [1/2, 1]
+  (Obj.not_outOfDomain3 rfl C02_exLin_valid C02_exLin_valid C02_exLin_valid (by norm_num)
+    C02_exLin_adm C02_exLin_adm C02_exLin_adm) : ∃ _, _)
+
+/-- Pointwise = diagonal at object level (curve, rational surface, rational volume). -/
+example := (C02_pointwise_is_diagonal_obj_curve (o := C02_exCurveRat) rfl (n1 := 6) (nc := 3) rfl
+  (fun _ => by decide) (1/1000) [1/2, 3]
+  (Obj.not_outOfDomain1 rfl C01_exOpen_valid (by norm_num) C02_exOpen_adm) : ∃ _, _)
+
+example := (C02_pointwise_is_diagonal_obj_surface (o := C02_exSurfRat) rfl (n1 := 2) (n2 := 2)
+  (nc := 3) rfl (fun _ => by decide) (1/1000) [1/2, 1] [1/2, 1] rfl
+  (Obj.not_outOfDomain2 rfl C02_exLin_valid C02_exLin_valid (by norm_num) C02_exLin_adm
+    C02_exLin_adm) : ∃ _, _)
+
+example := (C02_pointwise_is_diagonal_obj_volume (o := C02_exVolRat) rfl (n1 := 2) (n2 := 2)
+  (n3 := 2) (nc := 2) rfl (fun _ => by decide) (1/1000) [1/2, 1] [1/2, 1] [1/2, 1] rfl rfl
+  (Obj.not_outOfDomain3 rfl C02_exLin_valid C02_exLin_valid C02_exLin_valid (by norm_num)
+    C02_exLin_adm C02_exLin_adm C02_exLin_adm) : ∃ _, _)
+
+example : C02_view (C02_exSurfRat.evaluate (1/1000) [[1/2, 1], [1/2, 1]] true)
+    = some ([2, 2, 2], [1/2, 1/2, 1/2, 3/4, 1, 2/3, 1, 1]) := by decide +kernel
+example : C02_view (C02_exSurfRat.evaluate (1/1000) [[1/2, 1], [1/2, 1]] false)
+    = some ([2, 2], [1/2, 1/2, 1, 1]) := by decide +kernel
+
+/-! ### 3. spline sums -/
+
+example := (C02_specRow_nonperiodic (b := C01_exOpen) rfl (1/2) 1 : _ = _)
+example := (C02_specRow_periodic (b := C01_exPer) (by decide) (7/2) 1 : _ = _)
+example := (C02_row_is_spec C01_exOpen_valid (tol := 1/1000) (u := 1/2) (by norm_num)
+  (C02_exOpen_adm _ (by simp)) : _ ∧ _)
+example := (C02_row_is_spec C01_exPer_valid (tol := 1/1000) (u := 7/2) (by norm_num)
+  (C02_exPer_adm _ (by simp)) : _ ∧ _)
+
+example := (C02_nonrational_is_spline_sum_curve (o := C02_exCurve) rfl C01_exOpen_valid
+  (nc := 2) rfl rfl (tol := 1/1000) (by norm_num) C02_exOpen_adm (fun _ => by simp) : ∃ _, _)
+
+example := (C02_nonrational_is_spline_sum_curve_open (o := C02_exCurve) rfl C01_exOpen_valid rfl
   (nc := 2) rfl rfl (tol := 1/1000) (by norm_num) (us := [1/2, 3])
-  (fun u hu => ⟨(C02_exOpen_adm u hu).1, (C02_exOpen_adm u hu).2.1 rfl⟩)
-
-example := C02_bounding_box_curve (o := C02_exCurve) rfl C01_exOpen_valid
-  (nc := 2) rfl rfl (tol := 1/1000) (by norm_num) C02_exOpen_adm
+  (fun u hu => ⟨(C02_exOpen_adm u hu).1, (C02_exOpen_adm u hu).2.1 rfl⟩) (by simp) : ∃ _, _)
 
 /-- Periodic curve evaluated outside `[start, stop]`. -/
-example := C02_nonrational_is_spline_sum_curve (o := C02_exCurvePer) rfl C01_exPer_valid
-  (nc := 2) rfl rfl (tol := 1/1000) (by norm_num) C02_exPer_adm
+example := (C02_nonrational_is_spline_sum_curve (o := C02_exCurvePer) rfl C01_exPer_valid
+  (nc := 2) rfl rfl (tol := 1/1000) (by norm_num) C02_exPer_adm (fun _ => by simp) : ∃ _, _)
+
+example := (C02_nonrational_is_spline_sum_surface (o := C02_exSurf) rfl C02_exLin_valid
+  C02_exLin_valid (nc := 3) rfl rfl (tol := 1/1000) (by norm_num) C02_exLin_adm C02_exLin_adm
+  (fun _ => by simp) (fun _ => by simp) : ∃ _, _)
+
+/-- Mixed periodic × open surface. -/
+example := (C02_nonrational_is_spline_sum_surface (o := C02_exSurfPer) rfl C01_exPer_valid
+  C02_exLin_valid (nc := 1) rfl rfl (tol := 1/1000) (by norm_num) C02_exPer_adm C02_exLin_adm
+  (fun _ => by simp) (fun _ => by simp) : ∃ _, _)
+
+example := (C02_nonrational_is_spline_sum_surface_open (o := C02_exSurf) rfl C02_exLin_valid
+  C02_exLin_valid rfl rfl (nc := 3) rfl rfl (tol := 1/1000) (by norm_num) (us := [1/2, 1])
+  (vs := [1/2, 1])
+  (fun u hu => ⟨(C02_exLin_adm u hu).1, (C02_exLin_adm u hu).2.1 rfl⟩)
+  (fun u hu => ⟨(C02_exLin_adm u hu).1, (C02_exLin_adm u hu).2.1 rfl⟩) (by simp) (by simp)
+  : ∃ _, _)
+
+example := (C02_nonrational_is_spline_sum_volume (o := C02_exVol) rfl C02_exLin_valid
+  C02_exLin_valid C02_exLin_valid (nc := 1) rfl rfl (tol := 1/1000) (by norm_num)
+  C02_exLin_adm C02_exLin_adm C02_exLin_adm (fun _ => by simp) (fun _ => by simp)
+  (fun _ => by simp) : ∃ _, _)
+
+example : C02_view (C02_exCurve.evaluate (1/1000) [[1/2, 3]] true)
+    = some ([2, 2], [7/8, 11/8, 5, 1]) := by decide +kernel
+
+/-- C02_evaluate_snap_* / C02_snapped_admissible: separated knots, arbitrary parameters. -/
+example := (C02_evaluate_snap_curve (o := C02_exCurve) rfl C01_exOpen_valid
+  (tol := 1/1000) (by norm_num) C01_exOpen_separated [1/3, 2] true : _ = _)
+
+example := (C02_evaluate_snap_surface (o := C02_exSurf) rfl C02_exLin_valid C02_exLin_valid
+  (tol := 1/1000) (by norm_num) C02_exLin_separated C02_exLin_separated [1/3] [2/3, 5] false
+  : _ = _)
+
+example := (C02_evaluate_snap_volume (o := C02_exVol) rfl C02_exLin_valid C02_exLin_valid
+  C02_exLin_valid (tol := 1/1000) (by norm_num) C02_exLin_separated C02_exLin_separated
+  C02_exLin_separated [1/3] [2/3] [1/7] true : _ = _)
+
+example : C01_exOpen.Admissible (1/1000) (snap C01_exOpen (1/1000) (1/3)) :=
+  C02_snapped_admissible C01_exOpen_valid rfl C01_exOpen_separated (by decide +kernel)
+    (by decide +kernel)
+
+/-! ### 4. rational objects -/
 
 /-- C02_rational_curve: all weights positive. -/
-example := C02_rational_curve (o := C02_exCurveRat) rfl C01_exOpen_valid (dim := 2) rfl rfl
+example := (C02_rational_curve (o := C02_exCurveRat) rfl C01_exOpen_valid (dim := 2) rfl rfl
   (by
     intro j hj
     have hj' : j < 6 := hj
     interval_cases j <;> norm_num [Tensor.get, C02_exCurveRat])
-  (tol := 1/1000) (by norm_num) C02_exOpen_adm
+  (tol := 1/1000) (by norm_num) C02_exOpen_adm (fun _ => by simp) : ∃ _, _)
 
-/-- Surfaces. -/
-example := C02_nonrational_is_spline_sum_surface (o := C02_exSurf) rfl C02_exLin_valid
-  C02_exLin_valid (nc := 3) rfl rfl (tol := 1/1000) (by norm_num) C02_exLin_adm C02_exLin_adm
-
-example := C02_bounding_box_surface (o := C02_exSurf) rfl C02_exLin_valid
-  C02_exLin_valid (nc := 3) rfl rfl (tol := 1/1000) (by norm_num) C02_exLin_adm C02_exLin_adm
-
-example := C02_rational_surface (o := C02_exSurfRat) rfl C02_exLin_valid C02_exLin_valid
+example := (C02_rational_surface (o := C02_exSurfRat) rfl C02_exLin_valid C02_exLin_valid
   (dim := 2) rfl rfl
   (by
     intro j1 j2 h1 h2
@@ -876,18 +1242,10 @@ example := C02_rational_surface (o := C02_exSurfRat) rfl C02_exLin_valid C02_exL
     have h2' : j2 < 2 := h2
     interval_cases j1 <;> interval_cases j2 <;>
       norm_num [Tensor.get, C02_exSurfRat, Basis.numFunctions, C02_exLin])
-  (tol := 1/1000) (by norm_num) C02_exLin_adm C02_exLin_adm
+  (tol := 1/1000) (by norm_num) C02_exLin_adm C02_exLin_adm (fun _ => by simp) (fun _ => by simp)
+  : ∃ _, _)
 
-/-- Volumes. -/
-example := C02_nonrational_is_spline_sum_volume (o := C02_exVol) rfl C02_exLin_valid
-  C02_exLin_valid C02_exLin_valid (nc := 1) rfl rfl (tol := 1/1000) (by norm_num)
-  C02_exLin_adm C02_exLin_adm C02_exLin_adm
-
-example := C02_bounding_box_volume (o := C02_exVol) rfl C02_exLin_valid
-  C02_exLin_valid C02_exLin_valid (nc := 1) rfl rfl (tol := 1/1000) (by norm_num)
-  C02_exLin_adm C02_exLin_adm C02_exLin_adm
-
-example := C02_rational_volume (o := C02_exVolRat) rfl C02_exLin_valid C02_exLin_valid
+example := (C02_rational_volume (o := C02_exVolRat) rfl C02_exLin_valid C02_exLin_valid
   C02_exLin_valid (dim := 1) rfl rfl
   (by
     intro j1 j2 j3 h1 h2 h3
@@ -896,59 +1254,137 @@ example := C02_rational_volume (o := C02_exVolRat) rfl C02_exLin_valid C02_exLin
     have h3' : j3 < 2 := h3
     interval_cases j1 <;> interval_cases j2 <;> interval_cases j3 <;>
       norm_num [Tensor.get, C02_exVolRat, Basis.numFunctions, C02_exLin])
-  (tol := 1/1000) (by norm_num) C02_exLin_adm C02_exLin_adm C02_exLin_adm
+  (tol := 1/1000) (by norm_num) C02_exLin_adm C02_exLin_adm C02_exLin_adm (fun _ => by simp)
+  (fun _ => by simp) (fun _ => by simp) : ∃ _, _)
 
-/-- C02_pointwise_is_diagonal_obj_surface (rational object, two points). -/
-example := C02_pointwise_is_diagonal_obj_surface (o := C02_exSurfRat) rfl (n1 := 2) (n2 := 2)
-  (nc := 3) rfl (fun _ => by decide) (1/1000) [1/2, 1] [1/2, 1] rfl
-  (Obj.not_outOfDomain2 rfl C02_exLin_valid C02_exLin_valid (by norm_num) C02_exLin_adm
-    C02_exLin_adm)
+example : C02_view (C02_exCurveRat.evaluate (1/1000) [[1/2, 3]] true)
+    = some ([2, 2], [7/13, 11/13, 5, 1]) := by decide +kernel
 
-/-- C02_tensor_eval_obj_curve / C02_rational_rows_curve. -/
-example := C02_tensor_eval_obj_curve (o := C02_exCurve) rfl (n1 := 6) (nc := 2) rfl rfl (1/1000)
-  [1/2, 3] (Obj.not_outOfDomain1 rfl C01_exOpen_valid (by norm_num) C02_exOpen_adm)
+/-! ### periodic wraps -/
 
-example := C02_rational_rows_curve (o := C02_exCurveRat) rfl (n1 := 6) (dim := 2) rfl rfl (1/1000)
-  [1/2, 3] (Obj.not_outOfDomain1 rfl C01_exOpen_valid (by norm_num) C02_exOpen_adm)
+example := (C02_specRow_add_period C01_exPer_valid (by decide) (1/2) 1
+  (by rw [C01_exPer_stop]; norm_num) (by rw [C01_exPer_stop, C01_exPer_start]; norm_num) 2
+  : _ = _)
 
-/-- C02_evaluate_snap_curve / C02_snapped_admissible: separated knots. -/
-example := C02_evaluate_snap_curve (o := C02_exCurve) rfl C01_exOpen_valid
-  (tol := 1/1000) (by norm_num) C01_exOpen_separated [1/3, 2] true
+/-- At the domain end itself: `3 + 1·T = 6` (continuous seam). -/
+example := (C02_rowVal_add_period C01_exPer_valid (by decide) (tol := 1/1000) (by norm_num)
+  C02_exPer_seam (u := 3) 1 C02_exPer_exact_three
+  (by rw [C01_exPer_stop, C01_exPer_start]; norm_num; exact C02_exPer_exact_six) 2 : _ = _)
 
-/-- C02_periodic_wraps_curve: `1/2 + 1·T = 7/2`. -/
+/-- C02_periodic_wraps_curve: `1/2 + 1·T = 7/2` (no parameter at the domain end). -/
 example : C02_exCurvePer.evaluate (1/1000)
       [[(1/2 : ℚ)].map (fun u => u + ((fun _ => 1 : ℚ → ℤ) u : ℚ)
         * (C01_exPer.stop - C01_exPer.start))] true
     = C02_exCurvePer.evaluate (1/1000) [[1/2]] true :=
   C02_periodic_wraps_curve (o := C02_exCurvePer) rfl C01_exPer_valid (by norm_num) [1/2]
     (fun _ => 1)
-    (Or.inr ⟨by decide, by
+    (Or.inr (Or.inl ⟨by decide, by
       intro u hu
       simp only [List.mem_cons, List.not_mem_nil, or_false] at hu
       subst hu
       refine ⟨C01_exPer_exact_half, ?_, ?_, ?_⟩
       · rw [C01_exPer_stop, C01_exPer_start]; norm_num; exact C01_exPer_exact_seven_halves
       · rw [C01_exPer_stop]; norm_num
-      · rw [C01_exPer_stop, C01_exPer_start]; norm_num⟩) true
+      · rw [C01_exPer_stop, C01_exPer_start]; norm_num⟩)) true
 
-/-- C02_periodic_accepts_any_real. -/
-example := C02_periodic_accepts_any_real C02_exCurvePer (1/1000) [[-100, 7/2, 1000]]
-  (by intro b hb; simp [C02_exCurvePer] at hb; subst hb; decide)
+theorem C02_exPer_shift_stop :
+    C01_exPer.ShiftOK (1/1000) [3] (fun _ => 1) :=
+  Or.inr (Or.inr ⟨by decide, C02_exPer_seam, by
+    intro u hu
+    simp only [List.mem_cons, List.not_mem_nil, or_false] at hu
+    subst hu
+    exact ⟨C02_exPer_exact_three,
+      by rw [C01_exPer_stop, C01_exPer_start]; norm_num; exact C02_exPer_exact_six⟩⟩)
 
-/-- C02_identity_map_curve / _rational / _surface. -/
-example := C02_identity_map_curve C01_exOpen C01_exOpen_valid rfl (by decide)
+/-- C02_periodic_wraps_*: the parameter IS the domain end, `3 + 1·T = 6` (continuous seam). -/
+example := (C02_periodic_wraps_curve (o := C02_exCurvePer) rfl C01_exPer_valid
+  (tol := 1/1000) (by norm_num) [3] (fun _ => 1) C02_exPer_shift_stop false : _ = _)
+
+example := (C02_periodic_wraps_surface (o := C02_exSurfPer) rfl C01_exPer_valid C02_exLin_valid
+  (tol := 1/1000) (by norm_num) [3] [1/2, 1] (fun _ => 1) (fun _ => 0) C02_exPer_shift_stop
+  (Or.inl (fun _ _ => rfl)) true : _ = _)
+
+example := (C02_periodic_wraps_volume (o := C02_exVolPer) rfl C02_exLin_valid C01_exPer_valid
+  C02_exLin_valid (tol := 1/1000) (by norm_num) [1/2] [3] [1] (fun _ => 0) (fun _ => 1)
+  (fun _ => 0) (Or.inl (fun _ _ => rfl)) C02_exPer_shift_stop (Or.inl (fun _ _ => rfl)) true
+  : _ = _)
+
+example : C02_view (C02_exCurvePer.evaluate (1/1000) [[6, 7/2]] true)
+    = C02_view (C02_exCurvePer.evaluate (1/1000) [[3, 1/2]] true) := by decide +kernel
+
+/-! ### 7. identity maps -/
+
+example := (C02_greville (b := C01_exOpen) (by decide) : _ = _)
+
+example := (C02_identity_map_curve C01_exOpen C01_exOpen_valid rfl (by decide)
   (tol := 1/1000) (by norm_num) (us := [1/2, 3])
-  (fun u hu => ⟨(C02_exOpen_adm u hu).1, (C02_exOpen_adm u hu).2.1 rfl⟩)
+  (fun u hu => ⟨(C02_exOpen_adm u hu).1, (C02_exOpen_adm u hu).2.1 rfl⟩) (by simp) : ∃ _, _)
 
-example := C02_identity_map_curve_rational C01_exOpen C01_exOpen_valid rfl (by decide)
+example := (C02_identity_map_curve_rational C01_exOpen C01_exOpen_valid rfl (by decide)
   (tol := 1/1000) (by norm_num) (us := [1/2, 3])
-  (fun u hu => ⟨(C02_exOpen_adm u hu).1, (C02_exOpen_adm u hu).2.1 rfl⟩)
+  (fun u hu => ⟨(C02_exOpen_adm u hu).1, (C02_exOpen_adm u hu).2.1 rfl⟩) (by simp) : ∃ _, _)
 
-example := C02_identity_map_surface C01_exOpen C02_exLin C01_exOpen_valid C02_exLin_valid rfl rfl
+example := (C02_identity_map_surface C01_exOpen C02_exLin C01_exOpen_valid C02_exLin_valid rfl rfl
   (by decide) (by decide) (tol := 1/1000) (by norm_num) (us := [1/2, 3]) (vs := [1/2, 1])
   (fun u hu => ⟨(C02_exOpen_adm u hu).1, (C02_exOpen_adm u hu).2.1 rfl⟩)
+  (fun u hu => ⟨(C02_exLin_adm u hu).1, (C02_exLin_adm u hu).2.1 rfl⟩) (by simp) (by simp)
+  : ∃ _, _)
+
+example := (C02_identity_map_surface_rational C01_exOpen C02_exLin C01_exOpen_valid
+  C02_exLin_valid rfl rfl (by decide) (by decide) (tol := 1/1000) (by norm_num)
+  (us := [1/2, 3]) (vs := [1/2, 1])
+  (fun u hu => ⟨(C02_exOpen_adm u hu).1, (C02_exOpen_adm u hu).2.1 rfl⟩)
+  (fun u hu => ⟨(C02_exLin_adm u hu).1, (C02_exLin_adm u hu).2.1 rfl⟩) (by simp) (by simp)
+  : ∃ _, _)
+
+example := (C02_identity_map_volume C01_exOpen C02_exLin C02_exLin C01_exOpen_valid
+  C02_exLin_valid C02_exLin_valid rfl rfl rfl (by decide) (by decide) (by decide)
+  (tol := 1/1000) (by norm_num) (us := [1/2, 3]) (vs := [1/2, 1]) (ws := [1/2, 1])
+  (fun u hu => ⟨(C02_exOpen_adm u hu).1, (C02_exOpen_adm u hu).2.1 rfl⟩)
   (fun u hu => ⟨(C02_exLin_adm u hu).1, (C02_exLin_adm u hu).2.1 rfl⟩)
+  (fun u hu => ⟨(C02_exLin_adm u hu).1, (C02_exLin_adm u hu).2.1 rfl⟩) (by simp) (by simp)
+  (by simp) : ∃ _, _)
+
+example := (C02_identity_map_volume_rational C01_exOpen C02_exLin C02_exLin C01_exOpen_valid
+  C02_exLin_valid C02_exLin_valid rfl rfl rfl (by decide) (by decide) (by decide)
+  (tol := 1/1000) (by norm_num) (us := [1/2, 3]) (vs := [1/2, 1]) (ws := [1/2, 1])
+  (fun u hu => ⟨(C02_exOpen_adm u hu).1, (C02_exOpen_adm u hu).2.1 rfl⟩)
+  (fun u hu => ⟨(C02_exLin_adm u hu).1, (C02_exLin_adm u hu).2.1 rfl⟩)
+  (fun u hu => ⟨(C02_exLin_adm u hu).1, (C02_exLin_adm u hu).2.1 rfl⟩) (by simp) (by simp)
+  (by simp) : ∃ _, _)
+
+/-- Kernel-evaluated: the default rational volume of three linear bases maps `(1/2,1,1/2)` to
+itself. -/
+example : (match Obj.default #[C02_exLin, C02_exLin, C02_exLin] true with
+    | .ok o => C02_view (o.evaluate (1/1000) [[1/2], [1], [1/2]] true)
+    | .error _ => none) = some ([1, 1, 1, 3], [1/2, 1, 1/2]) := by decide +kernel
+
+example : (match Obj.default #[C01_exOpen, C02_exLin] true with
+    | .ok o => C02_view (o.evaluate (1/1000) [[1/2, 3], [1/2]] true)
+    | .error _ => none) = some ([2, 1, 2], [1/2, 1/2, 3, 1/2]) := by decide +kernel
 
 /-- C02_identity_map_order_one_raises. -/
 example : Obj.default #[(⟨1, #[0, 1], -1⟩ : Basis ℚ)] false = .error .zeroDiv :=
   C02_identity_map_order_one_raises _ rfl (by decide) false
+
+/-! ### 8. bounding box -/
+
+example := (C02_convex_combination_bounds (K := ℚ) 2 (fun _ => 1/2) (fun j => j) 0 1
+  (fun _ _ => by norm_num) (by norm_num [Finset.sum_range_succ])
+  (fun j hj => by interval_cases j <;> norm_num) : _ ∧ _)
+
+example := (C02_bounding_box_spec C02_exCurve (c := 1) (pI := 3) (by decide) (by decide) : _ ∧ _)
+
+example := (C02_bounding_box_curve (o := C02_exCurve) rfl C01_exOpen_valid
+  (nc := 2) rfl rfl (tol := 1/1000) (by norm_num) C02_exOpen_adm (fun _ => by simp) : ∃ _, _)
+
+example := (C02_bounding_box_surface (o := C02_exSurf) rfl C02_exLin_valid
+  C02_exLin_valid (nc := 3) rfl rfl (tol := 1/1000) (by norm_num) C02_exLin_adm C02_exLin_adm
+  (fun _ => by simp) (fun _ => by simp) : ∃ _, _)
+
+example := (C02_bounding_box_volume (o := C02_exVol) rfl C02_exLin_valid
+  C02_exLin_valid C02_exLin_valid (nc := 1) rfl rfl (tol := 1/1000) (by norm_num)
+  C02_exLin_adm C02_exLin_adm C02_exLin_adm (fun _ => by simp) (fun _ => by simp)
+  (fun _ => by simp) : ∃ _, _)
+
+example : C02_exCurve.boundingBox = [(0, 5), (0, 3)] := by decide +kernel
